@@ -247,22 +247,60 @@ func init() {
 			}
 			out = append(out, c09Run(constructs))
 		}
-		// the fragments GoldenGate cuts the parts into (first input order)
-		parts, _ := c09ParseParts(a[2])
-		var cuts []string
-		for _, part := range parts {
-			fragments, err := clone.CutWithEnzymeByName(part, true, enzyme)
-			if err != nil {
-				return nil, err
-			}
-			var items []string
-			for _, f := range fragments {
-				items = append(items, f.Sequence+","+f.ForwardOverhang+","+f.ReverseOverhang)
-			}
-			cuts = append(cuts, strings.Join(items, ";"))
+		cut, err := c09Cuts(a[2], enzyme)
+		if err != nil {
+			return nil, err
 		}
-		out = append(out, strings.Join(cuts, "|"))
+		out = append(out, cut)
 		out[0] = c09RaceSeen()
 		return out, nil
 	})
+	// goldengate2 dom enzyme twinparts parts0 parts1 parts2 parts3: a HISTORY inside one process — first the twin list (one
+	// part in its other topology, same text), then the four orders of the list proper; both cuts are reported
+	runner.Register("goldengate2", func(a []string) ([]string, error) {
+		out := []string{""}
+		inDomain := a[0] == "true"
+		enzyme := a[1]
+		for _, text := range a[2:] {
+			parts, err := c09ParseParts(text)
+			if err != nil {
+				return nil, err
+			}
+			var constructs []clone.Part
+			if hung := c09Guard(inDomain, "G|"+enzyme+"|"+text, func() { constructs, err = clone.GoldenGate(parts, enzyme) }); hung != nil {
+				return append([]string{"not-run"}, hung...), nil
+			}
+			if err != nil {
+				return nil, err
+			}
+			out = append(out, c09Run(constructs))
+		}
+		for _, text := range []string{a[3], a[2]} {
+			cut, err := c09Cuts(text, enzyme)
+			if err != nil {
+				return nil, err
+			}
+			out = append(out, cut)
+		}
+		out[0] = c09RaceSeen()
+		return out, nil
+	})
+}
+
+// c09Cuts: the fragments CutWithEnzymeByName(part, true, enzyme) releases, per part: `seq,fwd,rev;…|…`
+func c09Cuts(text, enzyme string) (string, error) {
+	parts, _ := c09ParseParts(text)
+	var cuts []string
+	for _, part := range parts {
+		fragments, err := clone.CutWithEnzymeByName(part, true, enzyme)
+		if err != nil {
+			return "", err
+		}
+		var items []string
+		for _, f := range fragments {
+			items = append(items, f.Sequence+","+f.ForwardOverhang+","+f.ReverseOverhang)
+		}
+		cuts = append(cuts, strings.Join(items, ";"))
+	}
+	return strings.Join(cuts, "|"), nil
 }
